@@ -1,0 +1,22 @@
+//go:build verif
+
+package engine
+
+// Accessors for the verification harness (/verif). Built only with -tags verif.
+
+// VerifSetMemType selects the index behind the "mem" engine: "radix" (the shipped default),
+// "btree" or "skiplist" (otherwise reachable only from the package tests). It must be called
+// before an engine is created. It returns false for an unknown name.
+func VerifSetMemType(name string) bool {
+	switch name {
+	case "radix":
+		useMemType = memTypeRadix
+	case "btree":
+		useMemType = memTypeBtree
+	case "skiplist":
+		useMemType = memTypeSkiplist
+	default:
+		return false
+	}
+	return true
+}
